@@ -182,6 +182,9 @@ func (f *frame) callEnv(in ssa.Instruction, c *ssa.CallCommon, args []Val, h *He
 // callSiteClauses evaluates the `call Name#k assert ...` and `call Name#k label L` clauses attached to this call.
 func (f *frame) callSiteClauses(in ssa.Instruction, c *ssa.CallCommon, args []Val, pc string, h *Heap) {
 	e := f.e
+	prevCtx := e.specCtx
+	e.specCtx = "call"
+	defer func() { e.specCtx = prevCtx }()
 	if (f.con == nil || len(f.con.Calls) == 0) && (f.callCon == nil || len(f.callCon.Calls) == 0) {
 		return
 	}
